@@ -505,6 +505,18 @@ class ExprMixin:
                     return seqops.to_py(isq) in seqops.to_py(seq)
                 if isq.items is not None and len(isq.items) == 1:
                     item = isq.items[0]
+                elif seq.items is not None and all(isinstance(i, int) for i in seq.items) and len(seq.items) <= 8:
+                    # symbolic text in a short constant text: it equals one of the constant's substrings (the empty one included)
+                    whole = seqops.to_py(seq)
+                    subs = sorted({whole[a:b] for a in range(len(whole) + 1) for b in range(a, len(whole) + 1)})
+                    cs = []
+                    for sub in subs:
+                        c = seqops.equal(isq, seqops.from_py(sub))
+                        if c is True:
+                            return True
+                        if c is not False:
+                            cs.append(c)
+                    return mk("bool", z3.Or(*cs)) if cs else False
                 else:
                     raise Unsupported("symbolic substring test")
             if seq.items is not None:
